@@ -394,6 +394,22 @@ theorem preferred_first_faithful (inp : Inputs) (ts : List Dep)
   unfold solveFaithful
   rw [List.head?_map, hs, Option.map_some, render_of_is inp ts s _ his, hpref]
 
+/-- **Preference first, in the property's words** (no contract): when the assignment the property words — forced flags
+as forced, preferred flags on, all others off, everything outside IUSE off (`preferredByWording`, which does not look
+at the domains; `preferred_is_property_preference`) — satisfies the constraints, it is the first assignment the
+modelled solver yields.  Hypothesis: no IUSE flag is forced both ways (the real call raises AssertionError then). -/
+theorem preferred_first_faithful_property (inp : Inputs) (ts : List Dep)
+    (hdis : ∀ f, f ∈ inp.iuse → f ∈ inp.forceT → f ∉ inp.forceF)
+    (h : (compiled ts).all (·.eval (onOf (preferredByWording inp (variables inp ts)))) = true) :
+    (solveFaithful inp ts).head? = some (preferredByWording inp (variables inp ts)) := by
+  rw [← preferred_eq_wording inp _ hdis] at h ⊢
+  exact preferred_first_faithful inp ts h
+
+/-- `|| ( a b c d )`, IUSE a b c d, a forced on, b forced off, c preferred, d plain: a and c on comes first -/
+example : ((solveFaithful ⟨[['a'], ['b'], ['c'], ['d']], [['a']], [['b']], [['c']]⟩
+    [.grp .or [.leaf ['a'] none, .leaf ['b'] none, .leaf ['c'] none, .leaf ['d'] none]]).map onOf).head?
+    = some [['a'], ['c']] := by decide
+
 /-- **The contract is discharged**: on structures without empty groups the modelled solver yields the solutions of the
 contract model `solve` (cartesian product filtered by the constraints), each once, possibly in another order. -/
 theorem faithful_perm_contract (inp : Inputs) (ts : List Dep) (hne : nonEmptyL ts = true) :
